@@ -217,7 +217,7 @@ HARNESSES = {
              "clauses": ["C08.a", "C08.a-isolated", "C08.a-energy", "C08.b", "C08.c", "C08.d", "C08.d-count", "C08.e", "C08.f", "C08.inv"]},
     "history": {"make": history, "witness_every": 9,
                 "jobs": lambda tier: ([{"k": 4, "thr": 1}, {"k": 5, "thr": 2}] if tier == "quick" else
-                                      [{"k": 6, "thr": 1}, {"k": 6, "thr": 2}, {"k": 7, "thr": 3}, {"k": 7, "thr": 4}]),
+                                      [{"k": 6, "thr": 1}, {"k": 6, "thr": 2}, {"k": 6, "thr": 3}]),
                 "clauses": ["C08.ref", "C08.a", "C08.b"]},
 }
 
@@ -229,7 +229,7 @@ META = {
     },
     "files": ["operon_ai/topology/loops.py"],
     "bounds": {"quick": {"step": "gate AND; threshold 1..64 symbolic; counters <= 2^16; clock symbolic; all 7x7 verdict pairs; cache on/off with/without an entry", "history": "k<=5 actions (run/advance below/advance above timeout/reset), thresholds 1,2"},
-               "thorough": {"step": "all 6 gate logics", "history": "k<=7, thresholds 1..4"}},
+               "thorough": {"step": "all 6 gate logics", "history": "k<=6 actions, thresholds 1..3 (k=7 is ~10x larger per threshold and does not finish within the budget on 16 cores)"}},
     "outside": ["time passing inside a call", "symbolic recovery timeout (fixed 60 s)", "on_block/on_permit callbacks", "truncated-hash collisions of the cache key"],
     "float_argument": "none: timedelta comparisons are exact integer millisecond comparisons",
     "assumptions": ["loops.datetime replaced by the symbolic clock", "executor/assessor replaced by stub agents that call budget.consume(10) per invocation",
